@@ -20,6 +20,7 @@ coercions, edge parameters.  The declared types follow `get_output_type`: the fi
 -/
 import TrustfallModel.Proofs.InterpInvMain
 import TrustfallModel.Proofs.InterpInvWitness
+import TrustfallModel.Proofs.FrontendBridge
 
 namespace TF.C13
 open TF TF.Engine
@@ -101,9 +102,89 @@ example : ∀ r ∈ Witness.F9.rows, ∀ p ∈ r,
 
 end TF.C13
 
+/-! ### compiled queries
+
+For the IR of a query the (modelled) frontend accepts, the structural hypothesis `WFq` is a theorem
+(`Bridge.toIR_WFq`, Proofs/FrontendBridgeWFq.lean), and `SchemaOK` follows from `ValidSchemaCore S` (a
+decidable predicate on the schema view alone: what the real `Schema::parse` guarantees, plus pairwise
+distinct parameter names per edge) up to the two sub-clauses about the type a `@recurse` edge
+continues on (`Bridge.RecClausesOK`, Proofs/FrontendBridge.lean: finding F-C21-1 and the clause that
+needs `InheritedParamsSame`; both vacuous for a query without `@recurse`,
+`Bridge.recClausesOK_of_noRecurse`). -/
+namespace TF.C13.Compiled
+open TF TF.Engine TF.Frontend
+open TF.SchemaBridge (ValidSchemaCore)
+
+/-- Each result row of an accepted query contains exactly the output names the compiled query
+declares. -/
+theorem rows_keys_compiled {S : SchemaView} {q : Spec.Query} {ir : IRQuery}
+    (h : toIR S q = .ok ir) (D : Data) (args : List (Name × Value))
+    (hV : ValidSchemaCore S = true) (hrec : Bridge.RecClausesOK S ir = true)
+    (hargs : ArgsOK ir args = true)
+    (hconf : Conforms S D = true) {rows : List Row}
+    (hrun : interpret (Env.ofData D args) ir = .ok rows) :
+    ∀ r ∈ rows, r.map (·.1) = ir.outputs.map (·.name) :=
+  rows_keys S D ir args (Bridge.toIR_WFq h)
+    (Bridge.toIR_SchemaOK_core hV h hrec) hargs hconf hrun
+
+/-- Each value of a result row of an accepted query is valid for the declared type of its output. -/
+theorem rows_typed_compiled {S : SchemaView} {q : Spec.Query} {ir : IRQuery}
+    (h : toIR S q = .ok ir) (D : Data) (args : List (Name × Value))
+    (hV : ValidSchemaCore S = true) (hrec : Bridge.RecClausesOK S ir = true)
+    (hargs : ArgsOK ir args = true)
+    (hconf : Conforms S D = true) {rows : List Row}
+    (hrun : interpret (Env.ofData D args) ir = .ok rows) :
+    ∀ r ∈ rows, ∀ p ∈ r, ∃ o ∈ ir.outputs, o.name = p.1 ∧ validQ o.ty p.2 = true :=
+  rows_typed S D ir args (Bridge.toIR_WFq h)
+    (Bridge.toIR_SchemaOK_core hV h hrec) hargs hconf hrun
+
+/-- `{ R0 { s @output(name: "o0")
+          e0 @optional { e0 @fold @transform(op: "count") @filter(op: "=", value: ["$v1"]) } } }`
+— the query of the F-9 regression world (`Witness.F9`). -/
+def exQuery : Spec.Query :=
+  ⟨"R0", [], .mk none [
+    .prop "s" [.output "o0"],
+    .edge "e0" [] .optional (.mk none [
+      .edge "e0" [] (.fold [.countFilter (.bin .equals) (.var "v1")]) (.mk none [])])]⟩
+
+def accepted : M IRQuery → Bool
+  | .ok _ => true
+  | .error _ => false
+
+def getIR : M IRQuery → IRQuery
+  | .ok ir => ir
+  | .error _ => default
+
+theorem ok_getIR {r : M IRQuery} (h : accepted r = true) : r = .ok (getIR r) := by
+  cases r with
+  | ok ir => rfl
+  | error e => simp [accepted] at h
+
+/-- the IR the frontend model compiles the example query to, over the schema of `Witness.F9` -/
+def exIR : IRQuery := getIR (toIR Witness.F9.S exQuery)
+
+theorem ex_compiles : toIR Witness.F9.S exQuery = .ok exIR := ok_getIR (by decide +kernel)
+
+/-- Non-vacuity: the example query is accepted and its IR meets all remaining hypotheses, so the two
+theorems apply to every run of it on the dataset of `Witness.F9`. -/
+example (rows : List Row)
+    (hrun : interpret (Env.ofData Witness.F9.D Witness.F9.args) exIR = .ok rows) :
+    (∀ r ∈ rows, r.map (·.1) = exIR.outputs.map (·.name)) ∧
+    ∀ r ∈ rows, ∀ p ∈ r, ∃ o ∈ exIR.outputs, o.name = p.1 ∧ validQ o.ty p.2 = true :=
+  ⟨rows_keys_compiled ex_compiles _ _ (by decide +kernel)
+     (Bridge.recClausesOK_of_noRecurse _ (by decide +kernel))
+     (by decide +kernel) (by decide +kernel) hrun,
+   rows_typed_compiled ex_compiles _ _ (by decide +kernel)
+     (Bridge.recClausesOK_of_noRecurse _ (by decide +kernel))
+     (by decide +kernel) (by decide +kernel) hrun⟩
+
+end TF.C13.Compiled
+
 #print axioms TF.C13.rows_keys
 #print axioms TF.C13.rows_typed
 #print axioms TF.C13.declared_nullable_in_optional
 #print axioms TF.C13.declared_fold_levels
 #print axioms TF.C13.declared_count
 #print axioms TF.C13.count_value_is_integer
+#print axioms TF.C13.Compiled.rows_keys_compiled
+#print axioms TF.C13.Compiled.rows_typed_compiled
